@@ -16,6 +16,9 @@ import Qco.Glue.Cli
 import Qco.Op.Comp
 import Qco.DType.Timestamps
 import Qco.Driver.FloatFns
+import Qco.Op.CompLit
+import Qco.Op.DecompLit
+import Qco.Driver.LitTrain
 namespace Qco.Driver
 open Qco
 
@@ -173,6 +176,7 @@ def analyzeChunk (d : DType) (fl : Flags) (level : Nat) (c : DChunk) (vals : Lis
     s!"bodybits={bodyB} bodybytes={c.cm.bodyBytes} nprefs={ps.length} maxcode={maxcode} W={W} nus={us.length} " ++
     s!"metabits={(encChunkMeta gbFloat d fl c.cm).length + 8} prefbits={(ps.map fun p => (encPrefix gbFloat (prefDType d fl) fl c.cm.n (!fl.gcds || c.cm.commonGcd.isSome) p).length).foldl max 0} " ++
     s!"explains={(Train.explainsWhy (us.mergeSort (· ≤ ·)) level fl.gcds c.cm.commonGcd.isSome gbFloat ps).replace " " "_"} " ++
+    s!"lit={litTrainVerdict (prefDType d fl).uBits (prefDType d fl).physBits gbFloat us level fl.gcds c.cm.n ps} " ++
     s!"huffopt={b01 huffopt} huffE={huffE} jlen={jlen} heavy={b01 heavy} dom={domCount} runs={runs} others={others} domjump={b01 domJump} allequal={b01 (us.all (· == us.headD 0))} tags={tags}"
   (str, blocks.map fun bs => { cm := c.cm, blocks := bs })
 
@@ -287,6 +291,113 @@ def cmdDops (args : List String) : String :=
       let (outs, _) := ops.foldl (fun (acc : List String × Op.St) op =>
         let (r, σ') := dopStep d limit.toNat! acc.2 op
         (s!"{r}@{σ'.bitIdx}" :: acc.1, σ')) ([], Op.St.init)
+      " ; ".intercalate outs.reverse
+  | _ => "bad-args"
+
+/-! ### decompressor operations on the LITERAL model (`ldops`): same request format and same output as `dops`,
+computed by `Qco.DecompLit` (word-level `BitWords`/`BitReader`, literal `NumDecompressor`) -/
+
+def hexBytesL (s : String) : List Nat :=
+  let rec go (cs : List Char) (acc : List Nat) : List Nat :=
+    match cs with
+    | a :: b :: rest => go rest ((Hex.hexVal a * 16 + Hex.hexVal b) :: acc)
+    | _ => acc.reverse
+  go s.toList []
+
+def litErrStr (k : String) : String := "err " ++ k
+
+/-- literal metadata in the harness's format (as `metaStrH`) -/
+def metaStrL (m : MetaIO.RMeta) : String :=
+  s!"n={m.n} body={m.compressedBodySize} moments={",".intercalate (m.prefixMetadata.moments.map Hex.ofNat)} prefixes={";".intercalate (m.prefixMetadata.prefixes.map prefixStr)}"
+
+def litItemStr : DecompLit.Item → String
+  | .flags f => s!"flags {flagsStr f}"
+  | .chunkMetadata m => s!"meta {metaStrL m}"
+  | .numbers xs => s!"nums {valsStr xs}"
+  | .footer => "footer"
+
+def ldopStep (d : DType) (limit : Nat) (σ : DecompLit.LitSt) (op : String) : String × DecompLit.LitSt :=
+  let head := (op.take 1).toString
+  let arg := (op.drop 1).toString
+  match head with
+  | "W" => ("ok", DecompLit.write σ (hexBytesL arg))
+  | "H" =>
+    match DecompLit.header d σ with
+    | (.ok f, σ') => (s!"ok flags={flagsStr f}", σ')
+    | (.err e, σ') => (litErrStr e, σ')
+    | (.panic, σ') => ("panic", σ')
+  | "M" =>
+    match DecompLit.chunkMetadata gbFloat d σ with
+    | (.ok (some m), σ') => (s!"ok meta {metaStrL m}", σ')
+    | (.ok none, σ') => ("ok none", σ')
+    | (.err e, σ') => (litErrStr e, σ')
+    | (.panic, σ') => ("panic", σ')
+  | "B" =>
+    match DecompLit.chunkBody d σ with
+    | (.ok xs, σ') => (s!"ok vals={valsStr xs}", σ')
+    | (.err e, σ') => (litErrStr e, σ')
+    | (.panic, σ') => ("panic", σ')
+  | "S" =>
+    match DecompLit.skipChunkBody σ with
+    | (.ok _, σ') => ("ok", σ')
+    | (.err e, σ') => (litErrStr e, σ')
+    | (.panic, σ') => ("panic", σ')
+  | "N" =>
+    match DecompLit.next gbFloat d limit σ with
+    | (.ok none, σ') => ("none", σ')
+    | (.ok (some it), σ') => (litItemStr it, σ')
+    | (.err e, σ') => (litErrStr e, σ')
+    | (.panic, σ') => ("panic", σ')
+  | "R" =>
+    let (items, e, σ') := DecompLit.drainIter gbFloat d limit 100000000 σ []
+    let strs := items.map litItemStr ++ (match e with | some e => [if e == "panic" then e else litErrStr e] | none => [])
+    (if strs.isEmpty then "drained" else "drained " ++ " , ".intercalate strs, σ')
+  | "F" =>
+    match DecompLit.free σ with
+    | (.ok _, σ') => ("ok", σ')
+    | (.err e, σ') => (litErrStr e, σ')
+    | (.panic, σ') => ("panic", σ')
+  | "D" =>
+    match DecompLit.simpleDecompress gbFloat d σ with
+    | (.ok xs, σ') => (s!"ok vals={valsStr xs}", σ')
+    | (.err e, σ') => (litErrStr e, σ')
+    | (.panic, σ') => ("panic", σ')
+  | "I" => ("ok", σ)
+  | "d" =>
+    match DecompLit.simpleDecompress gbFloat d σ with
+    | (.ok xs, σ') => (s!"ok n={xs.length}", σ')
+    | (.err e, σ') => (litErrStr e, σ')
+    | (.panic, σ') => ("panic", σ')
+  | "b" =>
+    match DecompLit.chunkBody d σ with
+    | (.ok xs, σ') => (s!"ok n={xs.length}", σ')
+    | (.err e, σ') => (litErrStr e, σ')
+    | (.panic, σ') => ("panic", σ')
+  | "m" =>
+    match DecompLit.chunkMetadata gbFloat d σ with
+    | (.ok (some m), σ') => (s!"ok meta n={m.n}", σ')
+    | (.ok none, σ') => ("ok none", σ')
+    | (.err e, σ') => (litErrStr e, σ')
+    | (.panic, σ') => ("panic", σ')
+  | "r" =>
+    let (items, e, σ') := DecompLit.drainIter gbFloat d limit 100000000 σ []
+    let count := items.foldl (fun a it => match it with | .numbers xs => a + xs.length | _ => a) 0
+    let last := match e with
+      | some e => if e == "panic" then e else litErrStr e
+      | none => if items.any (fun it => match it with | .footer => true | _ => false) then "footer" else "none"
+    (s!"drained n={count} last={last}", σ')
+  | "G" => ("dbg -", σ)
+  | _ => ("bad-op", σ)
+
+def cmdLdops (args : List String) : String :=
+  match args with
+  | dt :: limit :: ops =>
+    match Frozen.dtypeByName dt with
+    | none => "bad-dtype"
+    | some d =>
+      let (outs, _) := ops.foldl (fun (acc : List String × DecompLit.LitSt) op =>
+        let (r, σ') := ldopStep d limit.toNat! acc.2 op
+        (s!"{r}@{DecompLit.bitIdx σ'}" :: acc.1, σ')) ([], DecompLit.LitSt.init)
       " ; ".intercalate outs.reverse
   | _ => "bad-args"
 
@@ -515,6 +626,52 @@ def cmdCops (args : List String) : String :=
 
 /-! ### word-level bit packing (`bwords`, `bread`, `bwrite`): the Lean model of BitWords/BitReader/BitWriter -/
 
+/-! ### the same on the LITERAL compressor model (`lcops`, layer CL): `Qco.CompLit` over the word-level `BitWriter`.
+The answer of `train_prefixes` in a `C` call is the prefix list of the observed metadata, as it stands (no GCD
+rewriting: the literal metadata writer chooses the common-GCD field itself); the metadata printed is the one the
+literal `chunk` returns (its own `n`, body size and delta moments). -/
+
+def rmetaStrH (m : MetaIO.RMeta) : String :=
+  metaStrH { n := m.n, bodyBytes := m.compressedBodySize, moments := m.prefixMetadata.moments,
+             commonGcd := none, prefixes := m.prefixMetadata.prefixes }
+
+def lcopStep (d : DType) (c : CompLit.Comp) (op : String) : String × CompLit.Comp :=
+  let head := (op.take 1).toString
+  let arg := (op.drop 1).toString
+  let rStr := fun (r : WB.R Unit) => CompLit.resStr (fun _ => "ok") r
+  match head with
+  | "H" => let (r, c') := CompLit.header d c; (rStr r, c')
+  | "F" => let (r, c') := CompLit.footer c; (rStr r, c')
+  | "E" =>
+    let (r, c') := CompLit.chunk gbFloat BodyWriter.estExact d (fun _ _ _ _ => .ok []) [] c
+    (CompLit.resStr (fun _ => "ok meta ?") r, c')
+  | "C" =>
+    match arg.splitOn "#" with
+    | [nums, metaS] =>
+      let vals := parseNums nums
+      let m0 := if metaS == "-" then default else parseMetaH metaS
+      let (r, c') := CompLit.chunk gbFloat BodyWriter.estExact d (fun _ _ _ _ => .ok m0.prefixes) vals c
+      (CompLit.resStr (fun m => s!"ok meta {rmetaStrH m}") r, c')
+    | _ => ("bad-op", c)
+  | "D" => let (b, c') := CompLit.drainBytes c; (s!"bytes {Hex.ofBits (bytesBits b)}", c')
+  | "Z" => ("ok", c)
+  | _ => ("bad-op", c)
+
+def cmdLcops (args : List String) : String :=
+  match args with
+  | dt :: level :: order :: gcds :: ops =>
+    match Frozen.dtypeByName dt with
+    | none => "bad-dtype"
+    | some d =>
+      let cfg : Op.CConfig := { level := level.toNat!, order := order.toNat!, gcds := gcds == "1" }
+      let (outs, _) := ops.foldl (fun (acc : List String × CompLit.Comp) op =>
+        let (r, c') := lcopStep d acc.2 op
+        (s!"{r}@{CompLit.byteSize c'}" :: acc.1, c')) ([], CompLit.Comp.fromConfig cfg)
+      " ; ".intercalate outs.reverse
+  | _ => "bad-args"
+
+/-! ### word-level bit packing (`bwords`, `bread`, `bwrite`): the Lean model of BitWords/BitReader/BitWriter -/
+
 def hexBytes (s : String) : List Nat :=
   let rec go (cs : List Char) (acc : List Nat) : List Nat :=
     match cs with
@@ -567,7 +724,9 @@ def answer (line : String) : String :=
   | "dec" :: args => cmdDec args
   | "enc" :: args => cmdEnc args
   | "dops" :: args => cmdDops args
+  | "ldops" :: args => cmdLdops args
   | "cops" :: args => cmdCops args
+  | "lcops" :: args => cmdLcops args
   | "ast" :: args => cmdAst args
   | "fields" :: args => cmdFields args
   | "bodywrite" :: args => cmdBodyWrite args
